@@ -902,3 +902,57 @@ PULSE 1 "frame1" flat(iq: 1, duration: 4e-9)
 "#
     }
 }
+
+/// Verification hooks (off unless built with `--cfg rigetti_quil_rs_verif`): drive the private
+/// [`DependencyQueue`] with a caller-supplied access sequence and report what it answered.
+#[cfg(rigetti_quil_rs_verif)]
+pub mod verif_hooks {
+    use super::dependency_queue::DependencyQueue;
+    pub use super::InstructionFrameInteraction;
+    use super::{MemoryAccessType, ScheduledGraphNode};
+
+    /// Per step: the dependencies reported for that access; then the final pending set.
+    #[allow(clippy::type_complexity)]
+    pub fn drive_memory_queue(
+        accesses: &[(ScheduledGraphNode, MemoryAccessType)],
+    ) -> (
+        Vec<Vec<(MemoryAccessType, ScheduledGraphNode)>>,
+        Vec<(MemoryAccessType, ScheduledGraphNode)>,
+    ) {
+        let mut queue = DependencyQueue::<MemoryAccessType>::new();
+        let steps = accesses
+            .iter()
+            .map(|(node, access)| {
+                queue
+                    .record_access_and_get_dependencies(*node, *access)
+                    .into_iter()
+                    .map(|d| (d.access_type, d.node_id))
+                    .collect()
+            })
+            .collect();
+        let pending = queue
+            .into_pending_dependencies()
+            .into_iter()
+            .map(|d| (d.access_type, d.node_id))
+            .collect();
+        (steps, pending)
+    }
+
+    /// Per step: the dependencies reported for that interaction; then the final pending set.
+    pub fn drive_frame_queue(
+        interactions: &[(ScheduledGraphNode, InstructionFrameInteraction)],
+    ) -> (Vec<Vec<ScheduledGraphNode>>, Vec<ScheduledGraphNode>) {
+        let mut queue = DependencyQueue::<InstructionFrameInteraction>::new();
+        let steps = interactions
+            .iter()
+            .map(|(node, interaction)| {
+                queue
+                    .record_access_and_get_dependencies(*node, *interaction)
+                    .into_iter()
+                    .collect()
+            })
+            .collect();
+        let pending = queue.into_pending_dependencies().into_iter().collect();
+        (steps, pending)
+    }
+}
